@@ -14,6 +14,18 @@
 (*   SeaweedBounds, FeedEqualsCharge / BioEqualsCharge (human rounds),     *)
 (*   FeedWithinCeiling / BioWithinCeiling / FeedNonRising (animal round),  *)
 (*   FullyUsedStored / FullyUsedCrops (human rounds, at Finish).           *)
+(* Admissibility clauses of the allocation problem itself (C02: "subject   *)
+(* to the documented intake caps", and the stock regime's policy):         *)
+(*   HumanShareCaps  seaweed / single-cell protein / cellulosic sugar eaten *)
+(*                   by people each stay within their share of the          *)
+(*                   requirement of the initial population and of what      *)
+(*                   people eat that month                                  *)
+(*   FeedShareCaps / BioShareCaps  their share of the round's feed /        *)
+(*                   biofuel charge                                         *)
+(*   NoStoragePolicy  in the regimes without storage between years: meat is  *)
+(*                   eaten in the month of slaughter and stored food only   *)
+(*                   in months 0..12 (harvested crops are carried over in   *)
+(*                   every regime)                                          *)
 (* Written over Arith.tla: exhaustive on small rationals (MC_Ledger) and   *)
 (* trace validation in limb arithmetic (Trace_Ledger).  Quantities are in  *)
 (* units of the population's monthly calorie requirement; seaweed biomass  *)
@@ -43,10 +55,12 @@ VARIABLES
   cropSup,     \* cumulative harvest
   wetPrev, areaPrev,  \* seaweed biomass / used area at the end of the previous month
   feedPrev,    \* previous month's feed total
+  bioPrev,     \* previous month's biofuel total
+  score,       \* feed-maximising round: 2 * feed + biofuel so far (three times the round's objective)
   fedMin,      \* worst month so far of what people eat (all foods, in units of the requirement)
   done
 
-lvars == <<rc, mon, sfStock, cropStore, cropSup, meatSup, meatUse, wetPrev, areaPrev, feedPrev, fedMin, done>>
+lvars == <<rc, mon, sfStock, cropStore, cropSup, meatSup, meatUse, wetPrev, areaPrev, feedPrev, bioPrev, score, fedMin, done>>
 
 Draw(g, x) == Add(Add(Mul(g, x.h), x.f), x.b)
 FeedTotal(a) == Add(Add(Add(a.sf.f, a.crops.f), Add(a.scp.f, a.cs.f)), Mul(rc.swKcal, a.sw.f))
@@ -54,11 +68,16 @@ BioTotal(a) == Add(Add(Add(a.sf.b, a.crops.b), Add(a.scp.b, a.cs.b)), Mul(rc.swK
 AllNonNeg3(x) == LNonNeg(x.h) /\ LNonNeg(x.f) /\ LNonNeg(x.b)
 
 Pct(x) == Mul(x, Dec(100, 1))     \* percent -> fraction
+\* the three resilient foods in energy units: [sw, scp, cs] of direction d \in {"h", "f", "b"}
+Resilient(a, d) == [sw |-> Mul(rc.swKcal, a.sw[d]), scp |-> a.scp[d], cs |-> a.cs[d]]
+Pinned(x, p) == EqT(x, p, LpAbs, NOfScaled(11000, 2))      \* 1.1e-4 relative
+ShareOK(x, cap, base) == \A k \in {"sw", "scp", "cs"} : LLe(x[k], Mul(Pct(cap[k]), base))
 \* g is the gross-up factor for retail waste of w percent:  g * (1 - w/100) = 1
 IsGross(g, w) == EqT(Mul(g, Sub(One, Pct(w))), One, LpAbs, TolRel)
 
 LInit == /\ rc = [kind |-> "none"] /\ mon = -1 /\ sfStock = Zero /\ cropStore = Zero /\ cropSup = Zero /\ meatSup = Zero
-         /\ meatUse = Zero /\ wetPrev = Zero /\ areaPrev = Zero /\ feedPrev = Zero /\ fedMin = Zero /\ done = FALSE
+         /\ meatUse = Zero /\ wetPrev = Zero /\ areaPrev = Zero /\ feedPrev = Zero /\ bioPrev = Zero /\ score = Zero
+         /\ fedMin = Zero /\ done = FALSE
 
 (* c: the round's constants; wastes, harvest loss and growth are in percent *)
 Begin(c) ==
@@ -70,7 +89,7 @@ Begin(c) ==
   /\ sfStock' = c.sfInitial
   /\ cropStore' = Zero /\ cropSup' = Zero /\ meatSup' = Zero /\ meatUse' = Zero
   /\ wetPrev' = c.swInit /\ areaPrev' = c.swInitArea
-  /\ feedPrev' = Zero /\ fedMin' = Zero
+  /\ feedPrev' = Zero /\ bioPrev' = Zero /\ score' = Zero /\ fedMin' = Zero
   /\ done' = FALSE
 
 (* e = [m, sup |-> [crops, meat, scp, cs, built, growth, feed, bio], a |-> allocation] *)
@@ -112,10 +131,20 @@ Month(e) ==
      ELSE /\ Ck("FeedWithinCeiling", LLe(feed, s.feed))
           /\ Ck("BioWithinCeiling", LLe(bio, s.bio))
           /\ Ck("FeedNonRising", mon = 0 \/ LLe(feed, feedPrev))
+          /\ Ck("BioNonRising", mon = 0 \/ LLe(bio, bioPrev))
+          \* people's consumption is pinned to the hand-off of the no-feed round (within 1e-4 of each food's amount)
+          /\ Ck("HumansPinned", /\ Pinned(a.sf.h, e.pin.sf) /\ Pinned(a.crops.h, e.pin.crops) /\ Pinned(a.meat, e.pin.meat)
+                                /\ Pinned(a.scp.h, e.pin.scp) /\ Pinned(a.cs.h, e.pin.cs) /\ Pinned(Mul(rc.swKcal, a.sw.h), e.pin.sw))
+  /\ Ck("HumanShareCaps", rc.kind # "humans" \/ (ShareOK(Resilient(a, "h"), rc.capH, rc.popNeed) /\ ShareOK(Resilient(a, "h"), rc.capH, fed)))
+  /\ Ck("FeedShareCaps", ShareOK(Resilient(a, "f"), rc.capF, s.chargeF))
+  /\ Ck("BioShareCaps", ShareOK(Resilient(a, "b"), rc.capB, s.chargeB))
+  /\ Ck("NoStoragePolicy", rc.store \/ (/\ LLe(Mul(rc.gMeat, a.meat), s.meat)
+                                         /\ (mon > 12 => LEq(Draw(rc.gSf, a.sf), Zero))))
   /\ mon' = mon + 1
   /\ sfStock' = sfNext /\ cropStore' = cropNext /\ cropSup' = Add(cropSup, s.crops) /\ meatSup' = supNext /\ meatUse' = useNext
   /\ wetPrev' = a.sw.wet /\ areaPrev' = a.sw.area
-  /\ feedPrev' = feed
+  /\ feedPrev' = feed /\ bioPrev' = bio
+  /\ score' = Add(score, Add(Add(feed, feed), bio))
   /\ fedMin' = IF mon = 0 THEN fed ELSE Min(fedMin, fed)
   /\ UNCHANGED <<rc, done>>
 
@@ -126,11 +155,14 @@ Finish(n, z) ==
   /\ Ck("AllMonthsAllocated", mon = n)
   /\ (rc.kind = "humans") => Ck("OptimumAchieved", /\ LLe(Mul(z, Dec(9999, 1)), fedMin)
                                                     /\ LLe(fedMin, Mul(z, Add(One, Dec(1, 1)))))
+  \* the feed-maximising round reports the weighted total its allocation delivers (the tie-breaking solves keep 0.9999 of it)
+  /\ (rc.kind = "animals") => Ck("ScoreAchieved", /\ LLe(Mul(Mul(z, I(3)), Dec(9998, 1)), score)
+                                                   /\ LLe(score, Mul(Mul(z, I(3)), Add(One, Dec(2, 1)))))
   /\ (rc.kind = "humans") => /\ Ck("FullyUsedStored", CLe(sfStock, Zero, rc.sfInitial))
                             /\ Ck("FullyUsedCrops", CLe(cropStore, Zero, cropSup))
   /\ done' = TRUE
   /\ mon' = -1
-  /\ UNCHANGED <<rc, sfStock, cropStore, cropSup, meatSup, meatUse, wetPrev, areaPrev, feedPrev, fedMin>>
+  /\ UNCHANGED <<rc, sfStock, cropStore, cropSup, meatSup, meatUse, wetPrev, areaPrev, feedPrev, bioPrev, score, fedMin>>
 
 \* state invariants: nothing that exists is ever negative
 InvStocksNonNeg == mon >= 0 => (CLe(Zero, sfStock, rc.sfInitial) /\ CLe(Zero, cropStore, cropSup) /\ CLe(meatUse, meatSup, meatSup)
